@@ -32,7 +32,9 @@ func runCorpus(c *core.Ctx, base int64) {
 		}
 		r := core.NewRand(uint64(i))
 		h := &history{c: c, r: r}
-		c.Begin(i, func() string { return fmt.Sprintf("scripted history: copies of a ValueSet<%#v> with three colliding members", ety) })
+		c.Begin(i, func() string {
+			return fmt.Sprintf("scripted history: copies of a ValueSet<%#v> with three colliding members", ety)
+		})
 		pool := memberPool(r, ety)
 		var coll []cty.Value // members that share one bucket
 		for _, m := range pool {
